@@ -119,6 +119,9 @@ struct upipe_agraph {
     /** inferred padding at end of line */
     uint64_t pad_width;
 
+    /** true if the pipe holds a reference on itself while urefs are buffered */
+    bool buffered;
+
     /** public upipe structure */
     struct upipe upipe;
 };
@@ -159,6 +162,7 @@ static struct upipe *upipe_agraph_alloc(struct upipe_mgr *mgr,
     struct upipe_agraph *upipe_agraph = upipe_agraph_from_upipe(upipe);
     upipe_agraph_init_urefcount(upipe);
     upipe_agraph_init_input(upipe);
+    upipe_agraph_from_upipe(upipe)->buffered = false;
     upipe_agraph_init_output(upipe);
     upipe_agraph_init_ubuf_mgr(upipe);
     upipe_agraph_init_flow_format(upipe);
@@ -390,7 +394,10 @@ static void upipe_agraph_input(struct upipe *upipe, struct uref *uref,
         upipe_agraph_block_input(upipe, upump_p);
         /* Increment upipe refcount to avoid disappearing before all packets
          * have been sent. */
-        upipe_use(upipe);
+        if (!upipe_agraph_from_upipe(upipe)->buffered) {
+            upipe_agraph_from_upipe(upipe)->buffered = true;
+            upipe_use(upipe);
+        }
     }
 }
 
@@ -451,14 +458,21 @@ static int upipe_agraph_check_ubuf_mgr(struct upipe *upipe,
         upipe_agraph->prev[i] = NULL;
     }
 
-    bool was_buffered = !upipe_agraph_check_input(upipe);
+    /* The ubuf manager provider may answer from inside
+     * upipe_agraph_output_input (a buffered flow definition renews the
+     * request), which runs this function again: keep the pipe until we are
+     * done, and release the reference of upipe_agraph_input only once. */
+    upipe_use(upipe);
     upipe_agraph_output_input(upipe);
     upipe_agraph_unblock_input(upipe);
-    if (was_buffered && upipe_agraph_check_input(upipe)) {
+    if (upipe_agraph_from_upipe(upipe)->buffered &&
+        upipe_agraph_check_input(upipe)) {
         /* All packets have been output, release again the pipe that has been
          * used in @ref upipe_agraph_input. */
+        upipe_agraph_from_upipe(upipe)->buffered = false;
         upipe_release(upipe);
     }
+    upipe_release(upipe);
     return UBASE_ERR_NONE;
 }
 
